@@ -183,7 +183,7 @@ def rt_wrapper(seed, n):
 
 def tasks(tier, seed):
     T = []
-    shapes = [(2, 2), (3, 2)] + ([(4, 3)] if tier == 'thorough' else [])
+    shapes = [(2, 2), (3, 2)] + ([(2, 3), (3, 3)] if tier == 'thorough' else [])      # (4,3) needs 50-120 s per obligation in the solvers: verdicts near the budget are unstable
     for (Sn, An) in shapes:
         for wk in ('scalar', 'per-state'):
             for pk in ('shared', 'per-state'):
